@@ -78,7 +78,7 @@ class SGD(Optimizer):
                     if self.momentum_buffer[i] is not None:
                         self.momentum_buffer[i] = self.momentum*self.momentum_buffer[i] + (1.0 - self.dampening)*grad
                     else:
-                        self.momentum_buffer[i] = grad
+                        self.momentum_buffer[i] = np.array(grad) # private copy: p._grad keeps accumulating in place
                 
                     # Nesterov
                     if self.nesterov:
